@@ -56,8 +56,9 @@ example : wfMinimal [0x82, 0xa1, 0x78, 0x01, 0xa1, 0x74, 0x92, 0xc3, 0xa2, 0x61,
 
 /-- `validatesValues`: for every body the parser accepts, every op list and condition — a
     reported success is a body the parser accepts.  (`hsize`: no container is pushed past the
-    2^32 - 1 children a msgpack header can express; `maxCh t ≤` body length, `growth` is 1 per op
-    and the number of MERGE fields + 1 for MERGE.) -/
+    2^32 - 1 children a msgpack header can express: `maxCh t` is the largest child count in the
+    parsed body, `growth` is 1 per op and the number of MERGE fields + 1 for MERGE.  Beyond that
+    bound `EncodeMapLen` truncates the count to 32 bits — unreachable below 4 GiB of input.) -/
 theorem apply_wf {cfg : Cfg} (hv : cfg.validatesValues = true)
     {body : Bytes} {ops : List Op} {cond : Option Condition} {out : Bytes} {t : Node}
     (hparse : parse body = .ok t) (hpaths : ∀ op ∈ ops, op.path.length < 2 ^ 32)
